@@ -2,6 +2,8 @@
 From Coset.Model Require Import Prelude Cbor Iana Label Msg Cwt Context.
 From Coset.Spec Require Import Accept AcceptMsg.
 From Coset.Proofs Require Import ClaimsAccept MsgAccept.
+From Coset.Proofs Require TypedRoundTrip HeaderRoundTrip MsgRoundTrip ReencodeNf.
+Import HeaderRoundTrip MsgRoundTrip.
 
 Theorem C18_claims_accepted_iff_well_formed :
   forall v c, ClaimsSet_from_value v = Ok c <-> claims_spec (registered T_CwtClaimName) v = Some c.
@@ -31,6 +33,49 @@ Print Assumptions C18_arities.
 Theorem C18_never_panics : forall v, ClaimsSet_from_value v <> Panic.
 Proof. exact ClaimsSet_from_value_no_panic. Qed.
 Print Assumptions C18_never_panics.
+
+(* KDF context types: a well-formed value encodes to exactly its populated fields (PartyInfo: three
+   slots, nil for an absent field; SuppPubInfo: keyDataLength, protected bstr, `other` exactly when
+   present, even when empty) so that decoding returns it *)
+Theorem C18_party_roundtrip :
+  forall p, TypedRoundTrip.party_wf p ->
+  exists v, PartyInfo_to_value p = Ok v /\ PartyInfo_from_value v = Ok p.
+Proof. exact TypedRoundTrip.party_roundtrip. Qed.
+Print Assumptions C18_party_roundtrip.
+
+Theorem C18_supp_pub_info_roundtrip :
+  forall s, SuppPubInfo_bwf s ->
+  exists v, SuppPubInfo_to_value s = Ok v /\ SuppPubInfo_from_value v = Ok (assign_SuppPubInfo s).
+Proof. exact SuppPubInfo_encode_decode. Qed.
+Print Assumptions C18_supp_pub_info_roundtrip.
+
+Theorem C18_kdf_context_roundtrip :
+  forall k, CoseKdfContext_bwf k ->
+  exists v, CoseKdfContext_to_value k = Ok v /\ CoseKdfContext_from_value v = Ok (assign_CoseKdfContext k).
+Proof. exact CoseKdfContext_encode_decode. Qed.
+Print Assumptions C18_kdf_context_roundtrip.
+
+(* the well-formedness predicates hold of everything the decoders return *)
+Theorem C18_decoded_values_are_well_formed :
+  (forall v p, PartyInfo_from_value v = Ok p -> TypedRoundTrip.party_wf p) /\
+  (forall v m, SuppPubInfo_from_value v = Ok m -> SuppPubInfo_bwf m /\ assign_SuppPubInfo m = m) /\
+  (forall v m, CoseKdfContext_from_value v = Ok m -> CoseKdfContext_bwf m /\ assign_CoseKdfContext m = m).
+Proof.
+  split; [exact TypedRoundTrip.decoded_party_wf|].
+  pose proof decoded_messages_are_built as H. tauto.
+Qed.
+Print Assumptions C18_decoded_values_are_well_formed.
+
+(* decode -> encode -> decode at byte level for the four types (C07's statement specialised) *)
+Theorem C18_bytes_fixed_point :
+  ReencodeNf.bytes_fp_full ClaimsSet_from_value ClaimsSet_to_value /\
+  ReencodeNf.bytes_fp_full PartyInfo_from_value PartyInfo_to_value /\
+  ReencodeNf.bytes_fp_full SuppPubInfo_from_value SuppPubInfo_to_value /\
+  ReencodeNf.bytes_fp_full CoseKdfContext_from_value CoseKdfContext_to_value.
+Proof.
+  pose proof ReencodeNf.all_types_bytes_fixed_point_full as H. tauto.
+Qed.
+Print Assumptions C18_bytes_fixed_point.
 
 Example C18_nonvacuous :
   claims_wf (mkClaims (Some [x61]) None None (Some (WholeSeconds 5)) None None None [(PAssigned 8, VNull); (PText [x62], VInt 1)])
